@@ -291,11 +291,13 @@ def _resolve_owner(q):
 class UFTable(object):
     """Finite interpretation of an assumed pure callee, filled lazily from the model."""
 
-    def __init__(self, q, entries=None, lookup=None):
+    def __init__(self, q, entries=None, lookup=None, calls=None):
         self.q = q
         self.entries = entries if entries is not None else []   # [[key descs...], result desc]
         self.lookup = lookup
         self.rebuilder = None
+        self.calls = calls or []       # per call site: {'line','result','havocs','raise'}
+        self.count = {}
 
     def as_function(self, cc, tgt):
         table = self
@@ -305,6 +307,22 @@ class UFTable(object):
             env = dict(zip(names, args))
             env.update(kw)
             ns = namespace_for(cc, env)
+            if cc.pure_keys is None:
+                line = sys._getframe(1).f_lineno
+                recs = [r for r in table.calls if r['line'] == line]
+                if not recs:
+                    raise RuntimeError('replay: no model record for call to %s at line %d' % (table.q, line))
+                k = table.count.get(line, 0)
+                table.count[line] = k + 1
+                rec = recs[min(k, len(recs) - 1)]
+                if rec.get('raise'):
+                    import builtins
+                    raise getattr(builtins, rec['raise'], RuntimeError)('replayed exception')
+                for base_expr, field, vd in rec['havocs']:
+                    obj = eval(base_expr, ns)
+                    if obj is not None:
+                        setattr(obj, field, table.rebuilder.val(vd))
+                return table.rebuilder.val(rec['result'])
             keys = [eval(k, ns) for k in cc.pure_keys]
             kd = [table.key_desc(k) for k in keys]
             for e in table.entries:
@@ -380,6 +398,21 @@ def make_replay(ex, c, ob, result, prop):
                     t = UFTable(q, lookup=mk_lookup(q))
                     t.rebuilder = rb
                     tables[q] = t
+                elif cc.trusted:
+                    calls = []
+                    for r in ex.call_log:
+                        if r['qual'] != q or not z3.is_true(b.ev(r['guard'])):
+                            continue
+                        rz = None
+                        for exname, cnd in r['raises']:
+                            if z3.is_true(b.ev(cnd)):
+                                rz = exname
+                        calls.append({'line': r['line'], 'raise': rz,
+                                      'result': b.desc(r['result']) if r['result'] is not None else ['none'],
+                                      'havocs': [[be, f, b.desc(nv)] for (be, f, nv) in r['havocs']]})
+                    t = UFTable(q, calls=calls)
+                    t.rebuilder = rb
+                    tables[q] = t
             concrete = {n: rb.val(dv) for n, dv in params.items()}
             clause = c.ensures.get(ob.name)
             kind = 'ensures' if clause else ob.name.split('.')[0].split('@')[0]
@@ -387,6 +420,7 @@ def make_replay(ex, c, ob, result, prop):
             rec['params'] = params
             rec['objects'] = {str(k): v for k, v in b.objs.items()}
             rec['uf_tables'] = {q: t.entries for q, t in tables.items()}
+            rec['callee_calls'] = {q: t.calls for q, t in tables.items() if t.calls}
             rec['native'] = out
             if clause:
                 rec['confirmed'] = (out['clause_value'] is False)
@@ -415,7 +449,7 @@ def rerun(path):
     rb = Rebuilder(rec['objects'])
     tables = {}
     for q, entries in rec.get('uf_tables', {}).items():
-        t = UFTable(q, entries=entries)
+        t = UFTable(q, entries=entries, calls=rec.get('callee_calls', {}).get(q))
         t.rebuilder = rb
         tables[q] = t
     concrete = {n: rb.val(dv) for n, dv in rec['params'].items()}
